@@ -196,7 +196,14 @@ class AppNamespace(object):
         self._log_requests = log_requests
         self._app_id = app_id
         self._mailboxes = {}
+        self._connections = 0 # connections currently bound to this app
         self._allow_list = allow_list
+
+    def connection_bound(self):
+        self._connections += 1
+
+    def connection_lost(self):
+        self._connections -= 1
 
     def log_client_version(self, server_rx, side, client_version):
         if self._blur_usage:
@@ -552,7 +559,9 @@ class AppNamespace(object):
             db.commit()
             if self._usage_db:
                 self._usage_db.commit()
-        in_use = bool(self._mailboxes)
+        # a bound connection holds a reference to us: we must stay the one
+        # object for this app_id at least until it goes away
+        in_use = bool(self._mailboxes) or bool(self._connections)
         log.msg("  prune complete, modified=%s, in_use=%s" % (modified, in_use))
         return in_use
 
